@@ -199,6 +199,9 @@ func main() {
 			st = core.Explore(core.Options{Name: sc.Name, Bound: sc.Bound, Deadline: deadline, MaxExec: sc.MaxExec, Merge: !sc.NoMerge && !noMerge}, sc.Body, sc.Check)
 		}
 		rep.Scenarios++
+		if st.ArriveMode {
+			extra["scenarios_explored_in_arrive_mode"]++
+		}
 		rep.Executions += st.Executions
 		rep.Transitions += st.Transitions
 		rep.TreeNodes += st.TreeNodes
